@@ -129,8 +129,11 @@ def handlers : List (String × Handler) := [
     match lut with
     | .error e => pure (Json.mkObj [("err", Json.str e.toString)])
     | .ok lut =>
+      -- "volume": true = the same requests through the tiled branch of `Image.get_volume` (normalised twice)
+      let viaVolume := match getBool j "volume" with | .ok b => b | .error _ => false
       pure (okJson (Json.arr (reqs.map (fun q =>
-        regionToJson (readRegion (some 0) lut frames rows cols th tw chan q.rs q.re q.cs q.ce q.asIdx full allowMissing))).toArray))),
+        regionToJson (if viaVolume then readVolumeRegion (some 0) lut frames rows cols th tw chan q.rs q.re q.cs q.ce q.asIdx full allowMissing
+                      else readRegion (some 0) lut frames rows cols th tw chan q.rs q.re q.cs q.ce q.asIdx full allowMissing))).toArray))),
   -- Segmentation(tile_pixel_array=True) then get_total_pixel_matrix, several requests, one channel each
   ("tileThenRead", fun j => do
     let ms := (← getMatrixList j "matrices").map imgOfLists
